@@ -48,9 +48,14 @@ def canon_il(il):
     if il is None:
         return None
     sc = il.scores()
-    return {"ids": [int(x) for x in il.ids().tolist()],
-            "scores": None if sc is None else np.asarray(sc, dtype=np.float32).view(np.uint32).tolist(),
-            "ordered": bool(il.ordered)}
+    bits = None
+    if sc is not None:
+        # scores are COMPUTED results: compared bit by bit (subnormal numbers, signed zeros, last bits), except that a NaN
+        # score is a NaN whatever its payload / sign (which one an operation on NaNs returns depends on the code path, see
+        # c12_tasks.canon_num)
+        s32 = np.asarray(sc, dtype=np.float32)
+        bits = ["nan" if nan else int(b) for b, nan in zip(s32.view(np.uint32).tolist(), np.isnan(s32).tolist())]
+    return {"ids": [int(x) for x in il.ids().tolist()], "scores": bits, "ordered": bool(il.ordered)}
 
 
 def ops_of(spec):
